@@ -461,6 +461,11 @@ var otherRecvs = []otherRecv{
 	{"%{[7]: 1, [8]: 2}", []string{`[[7], 1]`, `[[8], 2]`}},
 	{"('d:'a:-1)", []string{`"d"`, `"c"`, `"b"`}},
 	{"<{|i| yield i if i < 3; recur(i + 1)}>.new(0)", []string{"0", "1", "2"}},
+	// typed descendants of the built-in collections that answer _iter themselves: the chain visits what THEIR iterator yields
+	{"Arr.bear({_iter: m{<{|a, i| yield a[i] if i >= 0; recur(a, i - 1)}>.new(self, .len - 1)}}).new([1, 2, 3])", []string{"3", "2", "1"}},
+	{"Arr.bear({_iter: m{<{|a, i| yield a[i] if i < a.len; recur(a, i + 2)}>.new(self, 0)}}).new([1, 2, 3, 4, 5])", []string{"1", "3", "5"}},
+	{"Str.bear({_iter: m{[\"x\", \"y\"]._iter}}).new(\"abc\")", []string{`"x"`, `"y"`}},
+	{"{a: 1, _iter: m{[7, 8, 9]._iter}}", []string{"7", "8", "9"}},
 	{"[]", nil},
 	{"0", nil},
 	{`""`, nil},
